@@ -373,7 +373,11 @@ func drawRoots(t *rapid.T) RootsCase {
 	big := rapid.IntRange(0, 99).Draw(t, "big")
 	switch {
 	case big < 2 && c.Fn == "meta":
-		c.N = rapid.SampledFrom([]int{65535, 65536, 65537, 65540, 98304, 131071, 131072, 131073}).Draw(t, "nbig")
+		c.N = rapid.SampledFrom([]int{65535, 65536, 65537, 65540, 98304, 131071, 131072, 131073, 196607, 196608, 196609, 262145, 327681, 331922, 393217, 458753}).Draw(t, "nbig")
+		if rapid.IntRange(0, 3).Draw(t, "nbigAny") == 0 {
+			// c full 64Ki-root chunks plus a remainder: the recursive split above 65536 roots, for every shape of c
+			c.N = rapid.IntRange(1, 9).Draw(t, "chunks")*65536 + rapid.SampledFrom([]int{0, 1, 2, 4097, 32768, 65535}).Draw(t, "rem")
+		}
 	case big < 2 && c.Fn == "reader":
 		c.N = rapid.SampledFrom([]int{4095, 4096, 4097, 65535, 65536}).Draw(t, "nbig")
 	case big < 10:
@@ -394,6 +398,22 @@ func drawRoots(t *rapid.T) RootsCase {
 }
 
 func TestRoots(t *testing.T) { stats.Prop(t, drawRoots, checkRoots) }
+
+// TestEnumMeta: MetaRoot against the tree definition for every number c of full 65536-root chunks up to 9 (power
+// of two or not) with remainders 0, 1 and 65535 — the sizes at which the recursive split of large root lists
+// changes shape (contracts of 256 GiB to 2.25 TiB).
+func TestEnumMeta(t *testing.T) {
+	shard, ns := stats.Shard()
+	i := 0
+	for c := 1; c <= 9; c++ {
+		for _, r := range []int{0, 1, 65535} {
+			if i++; i%ns != shard {
+				continue
+			}
+			stats.Check(t, RootsCase{Path: curPath(), Fn: "meta", N: c*65536 + r, Seed: uint64(c*7 + r), Chunk: Chunk{Mode: "exact", ErrAt: -1}}, checkRoots)
+		}
+	}
+}
 
 // ---- replay entries -----------------------------------------------------------------------
 
